@@ -8,7 +8,10 @@ One [`Collector`] owns up to three *endpoints* (one per OTLP signal), each on it
 * `Wire::Http1` - HTTP/1.1 written by hand over a tokio `TcpStream` (request line, headers,
   `Content-Length` bodies, keep-alive) so that every fault is under the script's control;
 * `Wire::Grpc`  - the `h2` crate's server; gRPC framing (1 byte flag + 4 byte big-endian length +
-  message), `grpc-status` in trailers (or in a trailers-only response).
+  message), `grpc-status` in trailers (or in a trailers-only response); responses that begin (`200`
+  HEADERS, optionally the message) and then break or end without any `grpc-status` - RST_STREAM with a
+  chosen error code, connection reset / closed, END_STREAM without trailers - and statuses that are not
+  numbers ([`Decision::AfterHeaders`], [`Decision::GrpcStatusUnreadable`]).
 
 Every request that reaches an endpoint takes the next [`Decision`] of that endpoint's script
 (acknowledge when the script is exhausted) and is recorded as a [`Record`]: connection id, path,
@@ -205,6 +208,33 @@ impl Phase {
     }
 }
 
+/// gRPC: how a response fails AFTER its `200` HEADERS frame was sent and before any `grpc-status`.
+#[derive(Clone, Copy, Debug, PartialEq, Eq, Hash)]
+pub enum HeadThen {
+    /// RST_STREAM with this HTTP/2 error code on that stream (2 INTERNAL_ERROR, 8 CANCEL, 11
+    /// ENHANCE_YOUR_CALM ...); the connection stays. Code 0 (NO_ERROR) is special: HTTP clients treat it
+    /// as a clean end of the response (RFC 7540 8.1), so the response simply ends without any status
+    Reset(u32),
+    /// the TCP connection is dropped mid-response (`reset`: RST, else FIN)
+    DropConnection { reset: bool },
+    /// the stream ends cleanly - END_STREAM on an empty DATA frame - without any trailers
+    EndStream,
+}
+
+pub fn h2_reason_name(code: u32) -> &'static str {
+    match code {
+        0 => "no-error",
+        1 => "protocol-error",
+        2 => "internal-error",
+        3 => "flow-control-error",
+        5 => "stream-closed",
+        7 => "refused-stream",
+        8 => "cancel",
+        11 => "enhance-your-calm",
+        _ => "other-error-code",
+    }
+}
+
 /// What the collector does with one request.
 #[derive(Clone, Copy, Debug, PartialEq, Eq, Hash)]
 pub enum Decision {
@@ -238,7 +268,18 @@ pub enum Decision {
     DropBeforeBody,
     /// read the whole body, then close the connection without answering
     DropAfterRead,
+    /// gRPC: read the whole request, send the `200` response HEADERS (content-type application/grpc),
+    /// optionally (`true`) a complete empty response message as well, and THEN fail as told before any
+    /// `grpc-status` was sent. Never an acknowledgement. HTTP/1: like `DropAfterRead`
+    AfterHeaders(HeadThen, bool),
+    /// gRPC: a complete response whose `grpc-status` is not a number ([`UNREADABLE_STATUS`]`[n % len]`), in a
+    /// trailers frame after the response message or in a trailers-only response. The status is mandatory and
+    /// numeric: this acknowledges nothing. HTTP/1: like `Status(503)`
+    GrpcStatusUnreadable(GrpcForm, u8),
 }
+
+/// Values of a `grpc-status` that is present but not a number.
+pub const UNREADABLE_STATUS: [&str; 4] = ["OK", "", "zero", "0x0"];
 
 impl Decision {
     pub fn is_ack(self) -> bool {
@@ -261,8 +302,36 @@ impl Decision {
     pub fn breaks_connection(self) -> bool {
         matches!(
             self,
-            Decision::Stall | Decision::StallAt(..) | Decision::DropOnAccept | Decision::DropBeforeBody | Decision::DropAfterRead | Decision::AckThenClose { .. } | Decision::AckThenDrop { .. }
+            Decision::Stall
+                | Decision::StallAt(..)
+                | Decision::DropOnAccept
+                | Decision::DropBeforeBody
+                | Decision::DropAfterRead
+                | Decision::AckThenClose { .. }
+                | Decision::AckThenDrop { .. }
+                | Decision::AfterHeaders(HeadThen::DropConnection { .. }, _)
         )
+    }
+
+    /// gRPC: the response began (`200` HEADERS) and then failed / ended before any `grpc-status`.
+    pub fn is_after_headers(self) -> bool {
+        matches!(self, Decision::AfterHeaders(..))
+    }
+
+    /// gRPC: the response ENDS CLEANLY after its HEADERS without any `grpc-status` (END_STREAM on an empty
+    /// DATA frame, or RST_STREAM(NO_ERROR), which clients read as a clean end). The status is mandatory:
+    /// that is not an acknowledgement.
+    pub fn ends_without_grpc_status(self) -> bool {
+        matches!(self, Decision::AfterHeaders(HeadThen::EndStream, _) | Decision::AfterHeaders(HeadThen::Reset(0), _))
+    }
+
+    /// Attempts this fault costs the peer that the collector never sees: after a connection that died
+    /// mid-response the peer's next attempt may fail on the dead cached connection before it reconnects.
+    pub fn hidden_attempts(self) -> usize {
+        match self {
+            Decision::AfterHeaders(HeadThen::DropConnection { .. }, _) | Decision::AckThenDrop { .. } => 1,
+            _ => 0,
+        }
     }
 
     /// Any of the decisions that leave the request hanging.
@@ -305,6 +374,19 @@ impl Decision {
             Decision::DropOnAccept => "drop-on-accept".into(),
             Decision::DropBeforeBody => "drop-before-body".into(),
             Decision::DropAfterRead => "drop-after-read".into(),
+            Decision::GrpcStatusUnreadable(form, n) => format!(
+                "grpc-status-not-a-number-{}{}",
+                ["OK", "empty", "zero", "0x0"][n as usize % UNREADABLE_STATUS.len()],
+                if form == GrpcForm::TrailersOnly { "-trailers-only" } else { "" }
+            ),
+            Decision::AfterHeaders(how, msg) => {
+                let at = if msg { "after-headers-and-message" } else { "after-headers" };
+                match how {
+                    HeadThen::Reset(code) => format!("reset-stream-{}-{}", h2_reason_name(code), at),
+                    HeadThen::DropConnection { reset } => format!("connection-{}-{}", if reset { "reset" } else { "closed" }, at),
+                    HeadThen::EndStream => format!("end-stream-without-trailers-{}", at),
+                }
+            }
         }
     }
 
@@ -325,6 +407,11 @@ impl Decision {
             Decision::DropOnAccept => "drop-on-accept",
             Decision::DropBeforeBody => "drop-before-body",
             Decision::DropAfterRead => "drop-after-read",
+            // the response ends cleanly without any status (END_STREAM without trailers, RST_STREAM(NO_ERROR))
+            Decision::AfterHeaders(HeadThen::Reset(0), _) | Decision::AfterHeaders(HeadThen::EndStream, _) => "no-grpc-status",
+            Decision::AfterHeaders(HeadThen::Reset(_), _) => "reset-after-headers",
+            Decision::AfterHeaders(HeadThen::DropConnection { .. }, _) => "connection-dropped-after-headers",
+            Decision::GrpcStatusUnreadable(..) => "unreadable-grpc-status",
         }
     }
 }
@@ -1118,7 +1205,7 @@ async fn serve_http1(shared: Arc<Shared>, ep: Arc<Endpoint>, mut stream: TcpStre
 
         // ---- decision ----
         let code = match decision {
-            Decision::DropAfterRead => {
+            Decision::DropAfterRead | Decision::AfterHeaders(..) => {
                 drop(stream);
                 shared.update(idx, |r| r.done = Some(stamp()));
                 shared.close_conn(conn, true);
@@ -1206,7 +1293,7 @@ async fn serve_http1(shared: Arc<Shared>, ep: Arc<Endpoint>, mut stream: TcpStre
             Decision::Ack(c) => c,
             Decision::AckThenDrop { .. } => 200,
             Decision::Status(c) => c,
-            Decision::GrpcStatus(..) => 503,
+            Decision::GrpcStatus(..) | Decision::GrpcStatusUnreadable(..) => 503,
             Decision::DropOnAccept | Decision::DropBeforeBody => unreachable!(),
         };
         let payload: &[u8] = if code == 204 {
@@ -1415,6 +1502,52 @@ async fn handle_h2(
             });
             return;
         }
+        Decision::AfterHeaders(how, with_message) => {
+            shared.update(idx, |r| r.responding = Some(stamp()));
+            let started = (|| {
+                let mut send = respond.send_response(grpc_response(http::StatusCode::OK), false)?;
+                if with_message {
+                    // a complete, empty Export*ServiceResponse message
+                    send.send_data(bytes::Bytes::from_static(&[0, 0, 0, 0, 0]), false)?;
+                }
+                Ok::<_, h2::Error>(send)
+            })();
+            match started {
+                Ok(mut send) => {
+                    shared.update(idx, |r| r.partial_written = Some(stamp()));
+                    match how {
+                        HeadThen::EndStream => {
+                            if let Err(e) = send.send_data(bytes::Bytes::new(), true) {
+                                shared.update(idx, |r| r.io_note = Some(format!("ending the stream failed: {}", e)));
+                            }
+                        }
+                        HeadThen::Reset(code) => {
+                            // `send_reset` discards what is still queued for the stream: let the HEADERS (and
+                            // the message) leave first, so that the peer sees a response that began and THEN
+                            // broke. (If they did not leave in time the peer sees a bare reset: a failure too.)
+                            tokio::time::sleep(Duration::from_millis(30)).await;
+                            send.send_reset(h2::Reason::from(code));
+                        }
+                        HeadThen::DropConnection { reset } => {
+                            tokio::time::sleep(Duration::from_millis(30)).await;
+                            if reset {
+                                kill.notify_one();
+                            } else {
+                                close.notify_one();
+                            }
+                            // keep the stream handle until the connection is gone
+                            tokio::select! {
+                                _ = shutdown.changed() => {}
+                                _ = std::future::poll_fn(|cx| send.poll_reset(cx)) => {}
+                            }
+                        }
+                    }
+                }
+                Err(e) => shared.update(idx, |r| r.io_note = Some(format!("beginning the response failed: {}", e))),
+            }
+            shared.update(idx, |r| r.done = Some(stamp()));
+            return;
+        }
         Decision::Ack(_) | Decision::HoldAck(_) | Decision::DelayAck(_) | Decision::AckThenClose { .. } | Decision::AckThenDrop { .. } => {
             match decision {
                 Decision::HoldAck(max) => wait_gate(&shared, max).await,
@@ -1451,6 +1584,23 @@ async fn handle_h2(
                 .body(())
                 .unwrap();
             respond.send_response(resp, true).map(|_| ())
+        }
+        Decision::GrpcStatusUnreadable(form, n) => {
+            shared.update(idx, |r| r.responding = Some(stamp()));
+            let text = UNREADABLE_STATUS[n as usize % UNREADABLE_STATUS.len()];
+            match form {
+                GrpcForm::Trailers => (|| {
+                    let mut send = respond.send_response(grpc_response(http::StatusCode::OK), false)?;
+                    send.send_data(bytes::Bytes::from_static(&[0, 0, 0, 0, 0]), false)?;
+                    let mut t = http::HeaderMap::new();
+                    t.insert("grpc-status", http::HeaderValue::from_static(text));
+                    send.send_trailers(t)
+                })(),
+                GrpcForm::TrailersOnly => {
+                    let resp = http::Response::builder().status(http::StatusCode::OK).header("content-type", "application/grpc").header("grpc-status", text).body(()).unwrap();
+                    respond.send_response(resp, true).map(|_| ())
+                }
+            }
         }
         Decision::Status(code) => {
             shared.update(idx, |r| r.responding = Some(stamp()));
